@@ -27,9 +27,12 @@ for d in sorted((V / "seeded").iterdir()):
 out = ["# Independently seeded breaks", "",
        "Each directory holds `patch.diff` (applies to `/repo` HEAD), `demo.py` (exits 0 without the patch, non-zero with it), `notes.md` (the author's description)",
        "and `meta.json` (what was run to confirm it).  Authors were fresh sub-agents which saw only the property text and a scratch worktree.",
-       "Round 2 (`<id>r2-*`) and round 3 (`<id>r3-*`) asked for particular kinds of change (cooperating edits, timing/order, aliasing/caching, boundary values).",
-       "", "Result of the quick tier of every check against the patched tree (`tools/matrix.py`):", "",
-       "| seeded change | property | summary (author's words) | own check | all checks that catch it |", "|---|---|---|---|---|"]
+       "Rounds 2 to 6 (`<id>r2-*` ... `<id>r6-*`) asked for particular kinds of change (cooperating edits, timing/order, aliasing/caching, boundary values,",
+       "re-sent / late PDUs, refusal and fault paths, less travelled transfer shapes, several peers / handlers, interplay of two procedures, pacing of the",
+       "entities, objects shared with the user, handling of time).",
+       "", "Result of the quick tier of the property's own check and of the general checks C10 and C11 against the patched tree (`tools/matrix.py --own-plus C11,C10`;",
+       "further checks where they were run by hand). `missed` own checks are explained under Assessments.", "",
+       "| seeded change | property | summary (author's words) | own check | checks (of those run) that catch it |", "|---|---|---|---|---|"]
 for name, prop, title, own, caught, note in rows:
     out.append(f"| {name} | {prop} | {title} | {own} | {', '.join(caught) if caught else '-'} |")
 notes = [(n, a) for n, _, _, _, _, a in rows if a]
